@@ -68,8 +68,11 @@ def base_lib(language, r):
         decls.append({"decl": "void qfun5(const std::string & s)"})
         decls.append({"decl": "class Qcls", "declarations": [
             {"decl": "Qcls()"}, {"decl": "~Qcls()"}, {"decl": "int qmeth0(int a)"}, {"decl": "void qmeth1(double x)"}]})
-        if r.random() < 0.5:
-            decls.append({"decl": "namespace qns", "declarations": [{"decl": "int qfun6(int a)"}]})
+        decls.append({"decl": "namespace qns", "declarations": [
+            {"decl": "int qfun6(int a)"},
+            {"decl": "namespace qmid", "declarations": [{"decl": "namespace qdeep", "declarations": [{"decl": "int qfun7(int a)"}]}]}]})
+        # an overload set (automatic numbering)
+        decls += [{"decl": "void qover(int i)"}, {"decl": "void qover(double d)"}, {"decl": "void qover(int i, int j)"}]
     else:
         decls[1] = {"decl": "double qfun1(double a, int d)"}
     return libgen.Lib("qlib", language, decls)
@@ -251,6 +254,38 @@ def run(ctx):
                         ctx.fail("c15:cf-depends-on-py-lua:%s" % d[0],
                                  "C/Fortran files change when wrap_python=%d wrap_lua=%d is switched (wrap_c=%d wrap_fortran=%d): %s" % (
                                      wp, wl, wc, wf, d[:4]), {"yaml": oth["yaml"], "flags": [wc, wf, wp, wl], "files": d[:8]})
+            # the same with per-declaration overrides in place (e.g. one overload wrapped for scripting only)
+            dd0 = lib.todict()
+            ndecl = len(dd0["declarations"])
+            ovsets = []
+            if lname == "cxx":
+                ovsets.append([((8,), {"wrap_c": False, "wrap_fortran": False})])          # first qover: scripting only
+                ovsets.append([((9,), {"wrap_c": False, "wrap_fortran": False}), ((0,), {"wrap_python": False})])
+            for _ in range(3 if thorough else 1):
+                ovs = []
+                for k in r.sample(range(ndecl), min(ndecl, r.randrange(1, 4))):
+                    o = r.choice([{"wrap_c": False, "wrap_fortran": False}, {"wrap_fortran": False}, {"wrap_python": False},
+                                  {"wrap_lua": False}, {"wrap_python": False, "wrap_lua": False}])
+                    ovs.append(((k,), dict(o)))
+                ovsets.append(ovs)
+            for oi, ovs in enumerate(ovsets):
+                ref = None
+                for wp, wl in ((0, 0), (0, 1), (1, 0), (1, 1)):
+                    res = run_config(work, "%s-ovb%d-%d%d" % (lname, oi, wp, wl), lib, (1, 1, wp, wl), ovs)
+                    ctx.count(1)
+                    if res["exc"] is not None:
+                        break
+                    tree = res["tree"][res["phys"]["cf"]]
+                    if ref is None:
+                        ref = tree
+                    else:
+                        d = sorted(f for f in set(ref) | set(tree) if ref.get(f) != tree.get(f))
+                        if d:
+                            ctx.fail("c15:cf-depends-on-py-lua:override:%s" % d[0],
+                                     "with per-declaration overrides %s the C/Fortran files change when wrap_python=%d wrap_lua=%d: %s" % (
+                                         ovs, wp, wl, d[:4]), {"yaml": res["yaml"], "files": d[:8]})
+                    common.rmtree(os.path.dirname(res["dirs"]["out"]))
+                ctx.nontrivial((lname, "ovbytes", oi))
             # per-declaration overrides on the libraries with searchable names
             if lname in ("cxx", "c"):
                 # NB: scratch directory tags must not contain the declaration names (setup.py records paths)
@@ -258,8 +293,9 @@ def run(ctx):
                 tn = [0]
                 if lname == "cxx":
                     targets.append(((6, 2), "qmeth0"))
+                    targets.append(((7, 1, 0, 0), "qfun7"))      # three namespaces deep
                 optn = {"c": "wrap_c", "fortran": "wrap_fortran", "python": "wrap_python", "lua": "wrap_lua"}
-                for path, fname in targets if thorough else targets[:3]:
+                for path, fname in targets if thorough else (targets[:2] + targets[-1:]):
                     for kind in KINDS:
                         # library on, declaration off
                         ov = [(path, {optn[kind]: False})]
